@@ -20,7 +20,6 @@ needs a non-empty trunk, agrees); empty / ragged matrices raise `AssertionError`
 """
 from __future__ import annotations
 
-import itertools
 import multiprocessing
 from fractions import Fraction
 
@@ -38,7 +37,7 @@ DRIVERS = ["drv_strop"]
 TRUSTED = [
     "Lean 4.33 kernel; axioms ⊆ {propext, Classical.choice, Quot.sound}",
     "hand-written model FV/Model/Strop.lean — fidelity to strop.py / utils.py checked by this correspondence run "
-    "(all grids up to 4×4, 3×5, 5×3 in the thorough tier), not proved",
+    "(all grids up to 4×5 and 5×4 in the thorough tier), not proved",
     "even–odd point-in-polygon is modelled and compared, its geometric correctness for arbitrary vertex lists is not "
     "proved; tied by the shoelace-area check",
     "create_stog is exercised on the implementation only (its model belongs to C06)",
@@ -46,6 +45,21 @@ TRUSTED = [
 ]
 
 SIDES = "NSEW"
+
+
+# ------------------------------------------------------------------ guarded calls into the implementation
+def guarded(fails: list, label: str, fn, *args):
+    """call into the implementation; an exception the property does not foresee becomes an `operation-raised`
+    spec failure (appended to `fails`) and the wire value `raised:<Class>` — never a harness crash."""
+    try:
+        return fn(*args)
+    except Exception as e:  # noqa: BLE001
+        fails.append(("operation-raised", {"operation": label, "exception": type(e).__name__, "message": str(e)[:200]}))
+        return "raised:" + type(e).__name__
+
+
+def well_formed(rows: list[str]) -> bool:
+    return len(rows) > 0 and len(rows[0]) > 0 and all(len(r) == len(rows[0]) for r in rows)
 
 
 # ------------------------------------------------------------------ implementation → wire format
@@ -229,11 +243,6 @@ def spec_grid(rows: list[str], s: Strop) -> list[tuple[str, dict]]:
 
 
 # ------------------------------------------------------------------ grid generators
-def all_grids(nr: int, nc: int):
-    for bits in range(1 << (nr * nc)):
-        yield [format((bits >> (nc * r)) & ((1 << nc) - 1), f"0{nc}b") for r in range(nr)]
-
-
 def gen_strop_grid(rng, nr: int, nc: int) -> list[str]:
     """a single-trunk orthogon by construction: trunk + random side histograms."""
     r1 = rng.randrange(nr)
@@ -392,20 +401,65 @@ def increasing(rng, n: int, fam: str) -> list[float]:
     return [x / base for x in ks]
 
 
+def gen_grown(rng, nr: int, nc: int) -> list[str]:
+    """random polyomino grown from a seed cell (mostly not single-trunk when large)."""
+    g = [[0] * nc for _ in range(nr)]
+    cells = [(rng.randrange(nr), rng.randrange(nc))]
+    g[cells[0][0]][cells[0][1]] = 1
+    for _ in range(rng.randint(1, max(1, (nr * nc * 2) // 3))):
+        i, j = rng.choice(cells)
+        di, dj = rng.choice([(0, 1), (1, 0), (0, -1), (-1, 0)])
+        if 0 <= i + di < nr and 0 <= j + dj < nc and not g[i + di][j + dj]:
+            g[i + di][j + dj] = 1
+            cells.append((i + di, j + dj))
+    return ["".join(map(str, r)) for r in g]
+
+
+TEMPLATES = [
+    ["111", "100", "101", "111"],                       # G: hook not joined to the spine
+    ["1111", "0001", "1101", "1001", "1111"],           # spiral
+    ["100", "110", "011"],                              # three-step staircase (the docstring's non-STrOP)
+    ["1100", "0110", "0011"],
+    ["010", "111", "010"],                              # plus (two trunks)
+    ["101", "111", "101"],                              # H
+    ["110", "011"],                                     # Z
+    ["0110", "1111", "0100"],
+]
+
+
 def gen_polygon(rng, mode: str):
     """(family, vertex list, source grid) — vertices of a grid pattern through random coordinate lists."""
     for _ in range(200):
         nr, nc = rng.randint(1, 6), rng.randint(1, 6)
         k = rng.random()
-        if k < 0.75:
+        if k < 0.55:
             fam, rows = "strop", gen_strop_grid(rng, nr, nc)
-        elif k < 0.9:
+        elif k < 0.70:
             fam, rows = "near-strop", flip(rng, gen_strop_grid(rng, nr, nc))
+        elif k < 0.85:
+            fam, rows = "grown", gen_grown(rng, nr, nc)
+        elif k < 0.89:
+            t = rng.choice(TEMPLATES)
+            if rng.random() < 0.5:
+                t = ["".join(r[j] for r in t) for j in range(len(t[0]))]      # transpose
+            if rng.random() < 0.5:
+                t = t[::-1]
+            if rng.random() < 0.5:
+                t = [r[::-1] for r in t]
+            rr = [rng.randint(1, 2) for _ in t]
+            cc = [rng.randint(1, 2) for _ in t[0]]
+            fam, rows = "template", [ "".join(ch * cc[j] for j, ch in enumerate(r)) for i, r in enumerate(t) for _ in range(rr[i])]
+        elif k < 0.94:
+            w = rng.randint(1, 2)
+            fam, rows = "staircase", ["".join("1" if i <= j < i + w + 1 else "0" for j in range(nc)) for i in range(nr)]
         else:
             fam, rows = "random", ["".join("1" if rng.random() < 0.7 else "0" for _ in range(nc)) for _ in range(nr)]
+        if not any("1" in r for r in rows):
+            continue
         loop = trace_boundary(to_bool(rows))
         if loop is None:
             continue
+        nr, nc = len(rows), len(rows[0])
         cf = rng.choice(COORD_FAMILIES_Q if mode == "Q" else COORD_FAMILIES_F)
         xs = increasing(rng, nc + 1, cf)
         ys = increasing(rng, nr + 1, cf)[::-1]  # row 0 is the top row
@@ -527,54 +581,96 @@ def spec_decomp(ctx: Ctx, inp, vs, rects, mode: str) -> None:
 
 
 # ------------------------------------------------------------------ cases
+def _grid_impl(rows: list[str]):
+    """everything the implementation says about one grid: (strop wire, pt wire or None, tm wire or None, is_strop, fails)."""
+    fails: list = []
+    r = guarded(fails, "Strop()", impl_strop, rows)
+    impl, s = r if isinstance(r, tuple) else (r, None)
+    if s is None and impl == "err:Assert" and well_formed(rows):
+        fails.append(("operation-raised", {"operation": "Strop()", "exception": "AssertionError", "message": "well-formed grid"}))
+    pt = tm = None
+    is_strop = None
+    if s is not None:
+        pt = guarded(fails, "_get_potential_trunks", impl_pt, s)
+        tm = guarded(fails, "_get_trunks_matrix", impl_tm, rows)
+        r = guarded(fails, "instances()/rectangles()", spec_grid, rows, s)
+        if isinstance(r, list):
+            fails += r
+        is_strop = bool(s.is_strop)
+    return impl, pt, tm, is_strop, fails
+
+
 def grid_case(ctx: Ctx, rows: list[str], fam: str, reqs, todo, count=True) -> None:
     inp = {"kind": "grid", "rows": rows}
-    impl, s = impl_strop(rows)
+    impl, pt, tm, is_strop, fails = _grid_impl(rows)
     reqs.append("G strop " + grid_req(rows))
     todo.append(("strop", inp, impl))
-    if s is not None:
+    if pt is not None:
         reqs.append("G pt " + grid_req(rows))
-        todo.append(("pt", inp, impl_pt(s)))
+        todo.append(("pt", inp, pt))
         reqs.append("G tm " + grid_req(rows))
-        todo.append(("tm", inp, impl_tm(rows)))
-        for clause, detail in spec_grid(rows, s):
-            ctx.spec_fail(clause, inp, detail, size=len(rows) * len(rows[0]))
+        todo.append(("tm", inp, tm))
+    for clause, detail in fails:
+        ctx.spec_fail(clause, inp, detail, size=len(rows) * len(rows[0]) if rows else 0)
     if count:
         ctx.case("grid", tuple(rows), nontrivial=any("1" in r for r in rows),
                  sample={"rows": rows, "impl": impl[:200]})
         ctx.count("grid:" + fam)
-        if s is not None:
-            ctx.count("is_strop:" + str(bool(s.is_strop)))
+        if is_strop is not None:
+            ctx.count("is_strop:" + str(is_strop))
+
+
+def _flush(ctx: Ctx, fails, inp, size=0) -> None:
+    for clause, detail in fails:
+        ctx.spec_fail(clause, inp, detail, size=size)
 
 
 def which_case(ctx: Ctx, rows, sel, reqs, todo) -> None:
     inp = {"kind": "which", "rows": rows, "sel": sel}
+    fails: list = []
     reqs.append(f"G which {sel if sel else '-'} " + grid_req(rows))
-    todo.append(("which", inp, impl_which(rows, sel)))
+    todo.append(("which", inp, guarded(fails, "rectangles(which)", impl_which, rows, sel)))
+    _flush(ctx, fails, inp, len(rows))
     ctx.case("which", (tuple(rows), sel), nontrivial=True)
     ctx.count("which")
 
 
 def rowiv_case(ctx: Ctx, row: str, reqs, todo) -> None:
     inp = {"kind": "rowiv", "row": row}
+    fails: list = []
     reqs.append("G rowiv " + (row if row else "."))
-    todo.append(("rowiv", inp, impl_rowiv(row)))
+    todo.append(("rowiv", inp, guarded(fails, "_row_interval", impl_rowiv, row)))
+    _flush(ctx, fails, inp, len(row))
     ctx.case("rowiv", row, nontrivial="1" in row)
 
 
-def poly_case(ctx: Ctx, mode: str, fam: str, vs, nd: bool, reqs, todo) -> None:
-    inp = {"kind": "verts", "mode": mode, "verts": [[x, y] for x, y in vs], "nd": nd, "family": fam}
+def poly_case(ctx: Ctx, mode: str, fam: str, vs, nd: bool, reqs, todo, src_rows=None) -> None:
+    inp = {"kind": "verts", "mode": mode, "verts": [[x, y] for x, y in vs], "nd": nd, "family": fam, "src_rows": src_rows}
+    fails: list = []
     reqs.append(f"{mode} vgrid " + verts_req(vs, mode))
-    todo.append(("vgrid", inp, impl_vgrid(vs, nd)))
-    res = impl_decomp(vs, nd)
+    todo.append(("vgrid", inp, guarded(fails, "is_point_inside_polygon", impl_vgrid, vs, nd)))
+    res = guarded(fails, "strop_decomposition", impl_decomp, vs, nd)
     reqs.append(f"{mode} decomp " + verts_req(vs, mode))
     todo.append(("decomp", inp, res))
+    _flush(ctx, fails, inp, len(vs))
     if not isinstance(res, str):
-        spec_decomp(ctx, inp, vs, res, mode)
+        fails = []
+        guarded(fails, "create_stog", spec_decomp, ctx, inp, vs, res, mode)
+        _flush(ctx, fails, inp, len(vs))
+    if src_rows is not None and (isinstance(res, list) or res == "err:Assert"):
+        # "reports a decomposition exactly when one exists": the polygon is the boundary of `src_rows`
+        expect = oracle_exists_trunk(to_bool(src_rows))
+        if expect != isinstance(res, list):
+            ctx.spec_fail("decomposition_iff_exists_trunk", inp, {"oracle": expect, "impl": "rectangles" if isinstance(res, list) else res},
+                          size=len(vs))
     ctx.case("verts-" + mode, (mode, tuple(vs), nd), nontrivial=True,
              sample={"mode": mode, "verts": inp["verts"], "impl": res if isinstance(res, str) else res[:3]})
     ctx.count("poly:" + fam.split(":")[0])
-    ctx.count("decomp:" + ("err" if isinstance(res, str) else "ok"))
+    ctx.count("decomp:" + ("ok" if isinstance(res, list) else res))
+
+
+def _pip_impl(px, py, vs, nd) -> str:
+    return str(int(is_point_inside_polygon(Point(px, py), mk_vertices(vs, nd))))
 
 
 def pip_case(ctx: Ctx, rng, reqs, todo) -> None:
@@ -584,9 +680,10 @@ def pip_case(ctx: Ctx, rng, reqs, todo) -> None:
     px, py = rng.randint(-17, 17) / 4, rng.randint(-17, 17) / 4
     nd = rng.random() < 0.5
     inp = {"kind": "pip", "verts": [[x, y] for x, y in vs], "p": [px, py], "nd": nd}
-    impl = str(int(is_point_inside_polygon(Point(px, py), mk_vertices(vs, nd))))
+    fails: list = []
     reqs.append(f"Q pip {sc(px, 'Q')} {sc(py, 'Q')} " + verts_req(vs, "Q"))
-    todo.append(("pip", inp, impl))
+    todo.append(("pip", inp, guarded(fails, "is_point_inside_polygon", _pip_impl, px, py, vs, nd)))
+    _flush(ctx, fails, inp, n)
     ctx.case("pip", (tuple(vs), px, py), nontrivial=True)
     ctx.count("pip")
 
@@ -612,51 +709,72 @@ def compare(ctx: Ctx, todo, replies) -> None:
 
 # ------------------------------------------------------------------ exhaustive tier (multiprocessing)
 def _exh_worker(args):
-    nr, nc, lo, hi = args
-    out = []
+    """one chunk of the exhaustive stream, entirely inside the worker: implementation, oracle, clauses and (when the
+    driver is available) the Lean model on the same grids; returns counts and the failures only."""
+    nr, nc, lo, hi, exe = args
+    reqs, todo, fails_out = [], [], []
+    n = pos = nontriv = 0
     for bits in range(lo, hi):
         rows = [format((bits >> (nc * r)) & ((1 << nc) - 1), f"0{nc}b") for r in range(nr)]
-        impl, s = impl_strop(rows)
-        fails = spec_grid(rows, s)
-        out.append((rows, impl, impl_pt(s), bool(s.is_strop), fails))
-    return out
+        impl, pt, _tm, is_strop, fails = _grid_impl(rows)
+        n += 1
+        pos += bool(is_strop)
+        nontriv += bits != 0
+        for clause, detail in fails:
+            fails_out.append((clause, rows, detail))
+        reqs.append("G strop " + grid_req(rows))
+        todo.append(("strop", rows, impl))
+        if pt is not None:
+            reqs.append("G pt " + grid_req(rows))
+            todo.append(("pt", rows, pt))
+    dis = []
+    if exe is not None:
+        from vcheck import run_driver
+        for (op, rows, impl), model in zip(todo, run_driver(reqs, exe)):
+            ok = impl == (canon_strop_reply(model) if op == "strop" else canon_list(model))
+            if not ok and len(dis) < 20:
+                dis.append((op, rows, impl, model[:600]))
+    return n, pos, nontriv, fails_out[:50], dis
 
 
-def exhaustive(ctx: Ctx, sizes, reqs, todo) -> None:
+def exhaustive(ctx: Ctx, sizes) -> None:
+    exe = ctx.lean.drivers[0] if ctx.model_available else None
     jobs = []
     for nr, nc in sizes:
         tot = 1 << (nr * nc)
         chunk = max(1, min(4096, tot // 64 or 1))
         for lo in range(0, tot, chunk):
-            jobs.append((nr, nc, lo, min(tot, lo + chunk)))
-    n = pos = 0
+            jobs.append((nr, nc, lo, min(tot, lo + chunk), exe))
+    n = pos = nontriv = 0
     with multiprocessing.get_context("fork").Pool(min(16, multiprocessing.cpu_count())) as pool:
-        for res in pool.imap_unordered(_exh_worker, jobs, chunksize=1):
-            for rows, impl, pt, is_strop, fails in res:
-                inp = {"kind": "grid", "rows": rows}
-                reqs.append("G strop " + grid_req(rows))
-                todo.append(("strop", inp, impl))
-                reqs.append("G pt " + grid_req(rows))
-                todo.append(("pt", inp, pt))
-                for clause, detail in fails:
-                    ctx.spec_fail(clause, inp, detail, size=len(rows) * len(rows[0]))
-                n += 1
-                pos += is_strop
-                ctx.evaluations += 1
-                if any("1" in r for r in rows):
-                    ctx._distinct.add("exh:" + "/".join(rows))
+        for cn, cpos, cnt, fails, dis in pool.imap_unordered(_exh_worker, jobs, chunksize=1):
+            n += cn
+            pos += cpos
+            nontriv += cnt
+            for clause, rows, detail in fails:
+                ctx.spec_fail(clause, {"kind": "grid", "rows": rows}, detail, size=len(rows) * len(rows[0]))
+            for op, rows, impl, model in dis:
+                ctx.disagree(op, {"kind": "grid", "rows": rows}, impl, model, size=len(rows) * len(rows[0]))
+    ctx.evaluations += n
+    # distinct non-trivial cases: every non-zero grid of every size is distinct (compact integer keys)
+    for nr, nc in sizes:
+        base = (nr * 8 + nc) << 32
+        ctx._distinct.update(range(base + 1, base + (1 << (nr * nc))))
+    ctx.extra["exhaustive_nontrivial"] = nontriv
     ctx.streams["exhaustive-grid"] = ctx.streams.get("exhaustive-grid", 0) + n
     ctx.extra["exhaustive_sizes"] = [f"{a}x{b}" for a, b in sizes]
     ctx.extra["exhaustive_grids"] = n
     ctx.extra["exhaustive_strops"] = pos
+    if exe is None:
+        ctx.notes.append("exhaustive stream ran without the model (driver unavailable)")
 
 
 def exhaustive_sizes(tier: str):
     if tier == "thorough":
         s = {(a, b) for a in range(1, 5) for b in range(1, 5)}
-        s |= {(a, 5) for a in range(1, 4)} | {(5, b) for b in range(1, 4)}
+        s |= {(a, 5) for a in range(1, 5)} | {(5, b) for b in range(1, 5)}
     else:
-        s = {(a, b) for a in range(1, 4) for b in range(1, 4)} | {(1, 4), (4, 1), (2, 4), (4, 2), (3, 4), (4, 3)}
+        s = {(a, b) for a in range(1, 5) for b in range(1, 5)}
     return sorted(s)
 
 
@@ -675,8 +793,9 @@ CORPUS = [
 
 
 def run(ctx: Ctx) -> None:
-    ctx.rule = ("grids: every 0/1 grid of the listed sizes (exhaustive stream: quick ≤3×3, 1..3×4, 4×1..3; thorough ≤4×4, ≤3×5, "
-                "≤5×3) plus random grids up to 8×8 from 9 families (uniform density, single-trunk orthogons by construction, "
+    ctx.rule = ("grids: every 0/1 grid of the listed sizes (exhaustive stream, run in 16 worker processes through implementation, "
+                "brute-force oracle, instance clauses and Lean model: quick all sizes ≤4×4; thorough all sizes ≤4×5 and ≤5×4, "
+                "2 239 888 grids) plus random grids up to 8×8 from 9 families (uniform density, single-trunk orthogons by construction, "
                 "the same with 1–2 flipped cells, staircases, rings, disconnected, full/empty, multi-run rows, malformed); "
                 "vertex lists: boundary of a random grid pattern (75% STrOPs, 15% one flipped cell, 10% random; rejected unless "
                 "one simple polygon) through random increasing coordinate lists (exact: int/half/dyadic → Rat model; "
@@ -696,8 +815,8 @@ def run(ctx: Ctx) -> None:
     for rows in CORPUS:
         grid_case(ctx, rows, "corpus", reqs, todo)
     if ctx.budget <= 1.0:
-        exhaustive(ctx, exhaustive_sizes(ctx.tier), reqs, todo)
-    for _ in range(ctx.n(3000, 60000)):
+        exhaustive(ctx, exhaustive_sizes(ctx.tier))
+    for _ in range(ctx.n(10000, 100000)):
         fam, rows = gen_grid(rng)
         grid_case(ctx, rows, fam, reqs, todo)
         if rng.random() < 0.1 and rows:
@@ -706,11 +825,11 @@ def run(ctx: Ctx) -> None:
     for _ in range(ctx.n(300, 3000)):
         n = rng.randint(0, 9)
         rowiv_case(ctx, "".join(rng.choice("01") for _ in range(n)), reqs, todo)
-    for k in range(ctx.n(300, 6000)):
+    for k in range(ctx.n(2000, 12000)):
         mode = "Q" if k % 2 == 0 else "F"
-        fam, vs, _ = gen_polygon(rng, mode)
-        poly_case(ctx, mode, fam, vs, rng.random() < 0.4, reqs, todo)
-    for _ in range(ctx.n(500, 10000)):
+        fam, vs, src = gen_polygon(rng, mode)
+        poly_case(ctx, mode, fam, vs, rng.random() < 0.4, reqs, todo, src_rows=src)
+    for _ in range(ctx.n(2000, 20000)):
         pip_case(ctx, rng, reqs, todo)
     replies = ctx.model(reqs)
     if replies is None:
@@ -728,13 +847,15 @@ def _replay_into(ctx: Ctx, inp: dict, reqs, todo) -> None:
     elif kind == "rowiv":
         rowiv_case(ctx, inp["row"], reqs, todo)
     elif kind == "verts":
-        poly_case(ctx, inp["mode"], inp.get("family", "replay"), [tuple(v) for v in inp["verts"]], inp["nd"], reqs, todo)
+        poly_case(ctx, inp["mode"], inp.get("family", "replay"), [tuple(v) for v in inp["verts"]], inp["nd"], reqs, todo,
+                  src_rows=inp.get("src_rows"))
     elif kind == "pip":
         vs = [tuple(v) for v in inp["verts"]]
         px, py = inp["p"]
-        impl = str(int(is_point_inside_polygon(Point(px, py), mk_vertices(vs, inp["nd"]))))
+        fails: list = []
         reqs.append(f"Q pip {sc(px, 'Q')} {sc(py, 'Q')} " + verts_req(vs, "Q"))
-        todo.append(("pip", inp, impl))
+        todo.append(("pip", inp, guarded(fails, "is_point_inside_polygon", _pip_impl, px, py, vs, inp["nd"])))
+        _flush(ctx, fails, inp, len(vs))
 
 
 def replay(ctx: Ctx, body: dict) -> None:
